@@ -239,6 +239,10 @@ def kinds_table():
         "complex": 1j, "None": None, "str": "a", "numeric str": "3", "bytes": b"3", "list": [1], "tuple": (1,),
         "Point": q, "Expression": f, "Function": fn, "Constraint": (e <= 1), "PSDMatrix": PSDMatrix([[e]]),
     }
+    p_variants = [p, 2 * p - q, p - p, 0 * p]
+    q_variants = [q, q - 3 * p, q - q]
+    e_variants = [e, 2 * e + f - 1, e - e, Expression(is_leaf=False, decomposition_dict={1: 2.})]
+    f_variants = [f, f - e + 0.5, f - f]
     scal = {"int", "bool", "float", "np.float64"}
     operators = {"add": op.add, "sub": op.sub, "mul": op.mul, "truediv": op.truediv,
                  "le": op.le, "ge": op.ge, "eq": op.eq, "lt": op.lt, "gt": op.gt, "pow": op.pow}
@@ -282,8 +286,12 @@ def kinds_table():
         for oname, ofun in operators.items():
             for lk, lv in list(kinds.items()) + []:
                 for rk, rv in kinds.items():
-                    for (a, ak, b, bk) in ((p, "Point", rv, rk), (e, "Expression", rv, rk),
-                                           (lv, lk, q, "Point"), (lv, lk, f, "Expression")):
+                    # the DSL operand takes several SHAPES of its kind: a leaf, a combination, the EMPTY combination
+                    # (x - x), a zero-weighted one -- dispatch must depend on the kind only (seed C06-10: a shortcut
+                    # for the empty left operand placed before the kind check)
+                    combos = [(pv, "Point", rv, rk) for pv in p_variants] + [(ev, "Expression", rv, rk) for ev in e_variants] \
+                        + [(lv, lk, qv, "Point") for qv in q_variants] + [(lv, lk, fv, "Expression") for fv in f_variants]
+                    for (a, ak, b, bk) in combos:
                         if oname == "pow":
                             if ak != "Point" or bk not in ("int", "float", "bool", "np.float64", "np.int64"):
                                 continue
@@ -291,8 +299,7 @@ def kinds_table():
                         if want is None:
                             continue
                         # numpy scalars on the left take over dispatch (numpy's __mul__ etc.): outside PEPit
-                        if ak.startswith("np.") or (ak in ("Point", "Expression") and bk in ("Point", "Expression")
-                                                    and a is not p and a is not e and ak != lk):
+                        if ak.startswith("np."):
                             continue
                         rows += 1
                         try:
